@@ -60,7 +60,10 @@ func (vc *FuncVC) matchWatch(w *Watch, name, kind string) bool {
 	short := vc.P.shortName(name)
 	switch pk {
 	case "invoke":
-		return kind == "invoke" && (pn == name || pn == short)
+		if strings.HasPrefix(pn, "*.") {
+			return kind == "invoke" && strings.HasSuffix(name, ")."+pn[2:])
+		}
+		return kind == "invoke" && (pn == name || pn == short || "("+pn[:max(strings.LastIndex(pn, "."), 0)]+")"+pn[max(strings.LastIndex(pn, "."), 0):] == name)
 	case "call":
 		return kind == "static" && (pn == name || pn == short || qualify(vc.C.Pkg, pn) == name)
 	case "dyn":
@@ -129,8 +132,49 @@ func (vc *FuncVC) logReturn(le logEntry, rets []Term) {
 	}
 }
 
+// preRegisterLogs declares the log components of every watched call in the
+// function up front, so that clauses may mention them on paths that return
+// before the call.
+func (vc *FuncVC) preRegisterLogs() {
+	for _, b := range vc.Fn.Blocks {
+		for _, in := range b.Instrs {
+			ci, ok := in.(ssa.CallInstruction)
+			if !ok {
+				continue
+			}
+			c := ci.Common()
+			if _, isB := c.Value.(*ssa.Builtin); isB {
+				continue
+			}
+			name, kind, fn := vc.calleeName(c)
+			for _, w := range vc.watches {
+				if !vc.matchWatch(w, name, kind) {
+					continue
+				}
+				if c.IsInvoke() {
+					vc.logComp("", w.Label, "recv", SIface)
+				}
+				for i, a := range c.Args {
+					comp := vc.logComp("", w.Label, fmt.Sprintf("a%d", i), vc.sortOf(a.Type()))
+					vc.logTypes[comp] = a.Type()
+				}
+				sig := c.Signature()
+				if fn != nil {
+					sig = fn.Signature
+				}
+				for i := 0; i < sig.Results().Len(); i++ {
+					comp := vc.logComp("", w.Label, fmt.Sprintf("r%d", i), vc.sortOf(sig.Results().At(i).Type()))
+					vc.logTypes[comp] = sig.Results().At(i).Type()
+				}
+				vc.logComp("", w.Label, "time", SInt)
+			}
+		}
+	}
+}
+
 // initLogs: at function entry every watch has an empty log.
 func (vc *FuncVC) initLogs() {
+	vc.preRegisterLogs()
 	for _, w := range vc.watches {
 		cnt := vc.logComp("", w.Label, "cnt", "")
 		called := vc.logComp("", w.Label, "called", SBool)
@@ -243,8 +287,40 @@ func (vc *FuncVC) execCall(in ssa.Instruction, c *ssa.CallCommon, res ssa.Value)
 // opaqueCall: unknown callee — arbitrary results, every unprotected heap component havoc'd.
 func (vc *FuncVC) opaqueCall(name, kind string, sig *types.Signature) *Val {
 	vc.abstract("opaque-call:" + vc.P.shortName(name))
-	vc.cur = vc.cur.havoc("call:" + name)
+	vc.havocOpaque("call:" + name)
 	return vc.resultVal("ret", sig)
+}
+
+// havocOpaque forgets every unprotected heap component, except the locations the
+// contract declares `stable` (an explicit, listed assumption).
+func (vc *FuncVC) havocOpaque(tag string) {
+	pre := vc.cur
+	vc.cur = pre.havoc(tag)
+	if vc.C == nil {
+		return
+	}
+	for _, l := range vc.stableLocs() {
+		if vc.protected(l.Comp) {
+			continue
+		}
+		vc.assume(Eq(vc.loadLoc(vc.cur, l), vc.loadLoc(pre, l)))
+	}
+}
+
+func (vc *FuncVC) stableLocs() []*Loc {
+	if vc.stable != nil || len(vc.C.Stable) == 0 {
+		return vc.stable
+	}
+	env := vc.newEnv(vc.entryState, vc.entryState)
+	for _, d := range vc.C.Stable {
+		e, err := ParseExpr(d)
+		if err != nil {
+			panic(err)
+		}
+		vc.stable = append(vc.stable, vc.designatorLocs(env, e)...)
+		vc.note("assumed: opaque callees do not write %s", d)
+	}
+	return vc.stable
 }
 
 func (vc *FuncVC) resultVal(prefix string, sig *types.Signature) *Val {
@@ -276,6 +352,7 @@ func (vc *FuncVC) applyContract(con *Contract, name string, fn *ssa.Function, si
 	env.calleeSig = sig
 	env.calleeFn = fn
 	env.calleeCon = con
+	env.calleeName = name
 	// bind formals
 	names := formalNames(con, sig, c.IsInvoke())
 	k := 0
@@ -353,8 +430,7 @@ func (vc *FuncVC) applyContract(con *Contract, name string, fn *ssa.Function, si
 		case con.HasAssgn:
 			vc.cur = vc.havocDesignators(env, con.Assigns, name)
 		default:
-			vc.cur = vc.cur.havoc("call:" + name)
-			vc.note("%s has a contract without an assigns clause: heap havoc'd at its call sites", short)
+			vc.havocOpaque("call:" + name)
 		}
 		result = vc.resultVal("ret", sig)
 	}
@@ -433,8 +509,10 @@ func (vc *FuncVC) havocDesignators(env *Env, designators []string, callee string
 			st = st.havocOnly([]string{strings.TrimPrefix(d, "comp:")}, "assigns:"+callee)
 			continue
 		}
-		if d == "\\everything" {
-			st = st.havoc("assigns:" + callee)
+		if d == "\\everything" || d == "\\opaque" {
+			vc.cur = st
+			vc.havocOpaque("assigns:" + callee)
+			st = vc.cur
 			continue
 		}
 		e, err := ParseExpr(d)
@@ -810,6 +888,10 @@ func (vc *FuncVC) assignedLocs() map[string][]*Loc {
 			allowed[strings.TrimPrefix(d, "comp:")] = append(allowed[strings.TrimPrefix(d, "comp:")], nil)
 			continue
 		}
+		if d == "\\opaque" || d == "\\everything" {
+			vc.assignsOpaque = true
+			continue
+		}
 		e, err := ParseExpr(d)
 		if err != nil {
 			panic(err)
@@ -826,6 +908,9 @@ func (vc *FuncVC) assignedLocs() map[string][]*Loc {
 // was allocated at entry, except the locations named by the assigns clause.
 func (vc *FuncVC) frameFormula(comp string, st *State) Term {
 	allowed := vc.assignedLocs()
+	if vc.assignsOpaque && !vc.protected(comp) {
+		return tTrue
+	}
 	now := st.get(comp)
 	before := vc.entryState.get(comp)
 	if now.S == before.S {
@@ -1082,8 +1167,9 @@ func (vc *FuncVC) designatorComps(con *Contract, sig *types.Signature, c *ssa.Ca
 			comps = append(comps, strings.TrimPrefix(d, "comp:"))
 			continue
 		}
-		if d == "\\everything" {
-			return nil, true
+		if d == "\\everything" || d == "\\opaque" {
+			all = true
+			continue
 		}
 		e, err := ParseExpr(d)
 		if err != nil {
